@@ -26,7 +26,9 @@ ENDTAGS = ["</script>", "</SCRIPT>", "</ScRipT>", "</script >", "</SCRIPT\n>", "
 HOSTILE = ['"', "'", "\\", "\\\\", "\\n", "\n", "\r\n", "\t", "é", "中", "\U0001f600", "<!--", "-->", "]]>", "&amp;", "&", "<", ">",
            PREFIX, "{", "}", "\"}", "\\u0041", " ", "\x00", "%", " ", "a.js", "x/y", "null", "<\\/script>",
            # "</" followed by something that cannot start an end tag, other end tags, a lone "<"
-           "</ b", "x</", "</>", "1</2", "<//script>", "</1", "</title>", "</b>", "</", "< /script>", "<\\"] + ENDTAGS
+           "</ b", "x</", "</>", "1</2", "<//script>", "</1", "</title>", "</b>", "</", "< /script>", "<\\",
+           # percent escapes, singly and doubly encoded (a file name is text: nothing decodes it)
+           "%20", "%2520", "%252F", "%25", "%2", "%zz", "+"] + ENDTAGS
 PLACEHOLDER = "<!--DEPS-PLACEHOLDER-->"
 
 
@@ -77,6 +79,12 @@ def rand_dep_recipe(rng, i, benign_head=False):
         r["head"] = "<meta name=\"raw\">" + hs(rng)
     elif h < 0.56:
         r["head"] = [gen.TAG("title", {"k": "text", "s": "T"}), {"k": "dep", "name": "nested-in-head", "version": "1.0", "script": [{"src": "n.js"}]}]
+    elif h < 0.7:
+        # head given as ONE object (markup read from a file and wrapped in HTML(), a tag, a list) with white space at its ends
+        ws_ = rng.choice(["\n", " ", "\n\n", "\t", "\r\n", ""])
+        r["head"] = rng.choice([{"as": "html", "s": ws_ + "<style>a{}</style>" + hs(rng, 1) + ws_},
+                                {"as": "taglist", "c": [{"k": "text", "s": ws_}, gen.TAG("title", {"k": "text", "s": "T"}), {"k": "text", "s": ws_}]},
+                                {"as": "tag", "node": gen.TAG("style", {"k": "text", "s": ws_ + "b{}" + ws_}, ws=False)}])
     return r
 
 
